@@ -159,10 +159,9 @@ pub fn parameter_has_annotation(lines: &[&str], line: usize, end_char: usize) ->
         return false;
     };
 
-    // Get the text after the parameter name
-    let after_param = if end_char < line_text.len() {
-        &line_text[end_char..]
-    } else {
+    // Get the text after the parameter name. `end_char` was recorded for an earlier version of
+    // the document: it may lie beyond this line or inside a multi-byte character of it.
+    let Some(after_param) = line_text.get(end_char..).filter(|rest| !rest.is_empty()) else {
         return false;
     };
 
